@@ -5,10 +5,14 @@ PROP = dict(
                  "replay": ("replay_run", "replay_eqb", "replay_in * replay_out")}},
     suites=[{"bin": "c02", "name": "replay", "n": {"quick": 14, "thorough": 200}, "timeout": 1500},
             {"bin": "c02", "name": "patch", "n": {"quick": 800, "thorough": 10000}, "timeout": 600}],
-    rule="replay: a producing node builds a history of 10..35 momentums (ZNN/QSR sends with data, their receives, plasma fuse, pillar delegate/undelegate incl. an unknown pillar, stake, auto-receives and contract updates); "
+    rule="replay: a producing node builds a history of about 20..65 momentums (ZNN/QSR sends with data, their receives, plasma fuse, pillar delegate/undelegate incl. an unknown pillar, stake, auto-receives and contract updates); "
          "receiving nodes wired like zenon.NewZenon get the same momentums through ChainBridge.InsertChain under random schedules: batch sizes 1..30, overlaps with known momentums, unlinkable batches from further ahead, "
          "prior AddAccountBlocks gossip of genuine copies of upcoming blocks (random subset, order, up to 5 momentums ahead: distance between acknowledged momentum and frontier), stop + reopen of the leveldb directory; "
          "observables: every InsertChain result, frontier hash, full key/value dump of the frontier store, dumps of historical views (live producer vs restarted receiver); first history also gossips one ChangesHash variant (F10). "
+         "Every history also contains, by construction, blocks whose verdict depends on the ledger of the momentum they acknowledge, 0..5 momentums behind the producer's frontier: the only fusion of an account is cancelled (or a fusion added for an account below the cap, "
+         "an own block confirmed, a send confirmed, the accelerator spork enforced in every third history) between the acknowledged momentum and the frontier; the valid direction is part of the history, the other direction (a signed block the producer refuses although its frontier ledger would take it) is a probe. "
+         "Directed schedules: a long-running receiver fed one momentum per InsertChain call (InsertChain([m+1]) directly followed by InsertChain([m+2]) with the block acknowledging m), one fed in batches, one restarted right before such momentums / probes; "
+         "all three must accept every momentum, refuse every probe, agree event by event and end with the producer's frontier hash and full store dump. "
          "patch: random Put/Delete sequences over 1..6 keys (empty key, prefixes, random bytes) on db.NewMemDB(), Changes() vs model and vs the same final content written once in random order.",
     explanation="Theorems: the change set is a function of the final overlay (sorted, last write per key); for every honest chain and any two schedules without variant gossip the receiving node's store equals the producer's state at that height "
                 "(so equal stores and equal answers), and the producer's next momentum is always accepted; with one gossiped variant of a user block both fail (F10, refuted by witness). "
